@@ -2,6 +2,7 @@
  * (except where ... would lex differently), Force gives exactly one space, Add gives at least one, Ignore keeps
  * presence or absence as in the input", and of C02: a forced space overrides Remove. */
 #include "common.h"
+#include "options_c.h"
 extern int g_ds_ret, g_ds_minsp;
 extern const unsigned long PCF_FORCE_SPACE_V;
 #define CH_FRESH(p) (__CPROVER_is_fresh((p), SIZEOF_Chunk) && !Chunk_m_nullChunk(p) && UT_FRESH_IN(Chunk_m_str(p)))
@@ -37,3 +38,63 @@ __CPROVER_ensures((EFF == 1 || EFF == 3) ==> __CPROVER_return_value == BASE + 1)
 __CPROVER_ensures(EFF == 2 ==> __CPROVER_return_value == BASE)
 __CPROVER_ensures(EFF == 0 ==> __CPROVER_return_value == BASE + ((Chunk_m_origLine(first) == Chunk_m_origLine(second) && HAD_GAP) ? 1 : 0))
 ;
+
+#ifdef SPTEXT_VC
+/* ---- the core of one space_text() iteration as a direct verification condition (C02-K3, C19-K3) ---- */
+extern struct Chunk *const PCC, *const NEXTC, *const OTHERC, *const NULLCC;
+extern const unsigned CT_ANGLE_CLOSE_V, CT_VBRACE_OPEN_V;
+extern const unsigned long LANG_CPP_V, LANG_JAVA_V, LANG_CS_V, LANG_VALA_V, LANG_OC_V;
+extern unsigned g_nav_fuel;
+extern int g_av, g_minsp;
+extern _Bool g_kw_asked, g_kw_last, g_kw_first, g_fp_asked, g_fp_found, g_fp_brackets;
+extern size_t g_fp_len;
+void *malloc(unsigned long);
+unsigned long nondet_ul(void);
+void space_text_apply(struct Chunk *pc, struct Chunk *next, size_t *column_io, size_t prev_column);
+static void mk_chunk2(struct Chunk *p, _Bool isnull)
+{
+   Chunk_m_nullChunk(p) = isnull;
+   unsigned long cap = nondet_ul();
+   __CPROVER_assume(cap <= MAXCAP && DI_size(UT_chars(Chunk_m_str(p))) <= cap);
+   DI_cap(UT_chars(Chunk_m_str(p))) = cap;
+   DI_data(UT_chars(Chunk_m_str(p))) = malloc(cap * sizeof(int));
+   __CPROVER_assume(DI_data(UT_chars(Chunk_m_str(p))) != (int *)0);
+}
+#define LANG_SET(l) ((CPD(lang_flags) & (l)) != 0)
+void h_space_text_apply(void)
+{
+   struct Chunk *pc = PCC, *next = NEXTC;
+   __CPROVER_havoc_object(PCC); __CPROVER_havoc_object(NEXTC); __CPROVER_havoc_object(OTHERC); __CPROVER_havoc_object(NULLCC);
+   mk_chunk2(PCC, 0); mk_chunk2(NEXTC, 0); mk_chunk2(OTHERC, 0); mk_chunk2(NULLCC, 1);
+   size_t column = nondet_ul(), prev_column;
+   __CPROVER_assume(column < (1UL << 40) && g_nav_fuel <= 3);
+   __CPROVER_assume(Chunk_m_origCol(next) < (1UL << 30) && Chunk_m_origColEnd(pc) < (1UL << 30) && Chunk_m_origCol(OTHERC) < (1UL << 30));   /* columns below 2^30: `int delta = next->GetOrigCol() - ...` converts size_t to int */
+   prev_column = column;
+   g_kw_asked = 0; g_fp_asked = 0;
+   size_t len_pc = UT_size(Chunk_m_str(pc));
+   space_text_apply(pc, next, &column, prev_column);
+   _Bool forced = (Chunk_m_flags(pc) & PCF_FORCE_SPACE_V) == PCF_FORCE_SPACE_V;
+   int msp = g_minsp > 1 ? g_minsp : 1;
+   /* C02-K3: back-to-back words: the last character of pc and the first of next are both keyword characters => forced space */
+   __CPROVER_assert((g_kw_asked && g_kw_last && g_kw_first) ==> forced, "postcondition: space_text back-to-back words get PCF_FORCE_SPACE");
+   /* C02-K3: two punctuators whose concatenation lexes to a punctuator of another length => forced space; the only pairs
+    * allowed to fuse are '>' '>' closing two template argument lists (C++11 with sp_permit_cpp11_shift, Java, C#, Vala, OC) and "[]" */
+   _Bool shift_ok = ((LANG_SET(LANG_CPP_V) && optv_sp_permit_cpp11_shift) || LANG_SET(LANG_JAVA_V) || LANG_SET(LANG_CS_V) || LANG_SET(LANG_VALA_V) || LANG_SET(LANG_OC_V))
+                    && Chunk_m_type(pc) == CT_ANGLE_CLOSE_V && Chunk_m_type(next) == CT_ANGLE_CLOSE_V;
+   __CPROVER_assert((g_fp_asked && g_fp_found && g_fp_len != len_pc && !shift_ok && !g_fp_brackets) ==> forced, "postcondition: space_text punctuators that would fuse get PCF_FORCE_SPACE");
+   /* the forced space is honoured: at least one column between the two chunks */
+   __CPROVER_assert(forced ==> column >= prev_column + 1, "postcondition: space_text a forced space yields at least one blank");
+   /* C19-K3: the decision applied to columns (Force: exactly max(1,min_sp); Remove: none; Add: at least max(1,min_sp);
+    * Ignore: the gap the input had, when it can be measured) */
+   __CPROVER_assert(g_av == 3 ==> column == prev_column + (size_t)msp, "postcondition: space_text Force gives exactly max(1, min_sp) blanks");
+   __CPROVER_assert(g_av == 2 ==> column == prev_column, "postcondition: space_text Remove gives no blank");
+   __CPROVER_assert(g_av == 1 ==> column >= prev_column + (size_t)msp, "postcondition: space_text Add gives at least max(1, min_sp) blanks");
+   __CPROVER_assert((g_av == 0 && Chunk_m_origColEnd(pc) != 0 && Chunk_m_origCol(next) >= Chunk_m_origColEnd(pc)) ==> column == prev_column + (Chunk_m_origCol(next) - Chunk_m_origColEnd(pc)),
+                    "postcondition: space_text Ignore keeps the gap of the input");
+   __CPROVER_assert((g_av == 0 && !(Chunk_m_origColEnd(pc) != 0 && Chunk_m_origCol(next) >= Chunk_m_origColEnd(pc)) && Chunk_m_type(pc) != CT_VBRACE_OPEN_V) ==> column == prev_column,
+                    "postcondition: space_text Ignore adds nothing where the input gap cannot be measured");
+   if (forced && g_av == 3) { __CPROVER_assert(0, "VACUITY_CANARY space_text: forced space"); }
+   if (g_fp_asked && g_fp_found && !forced) { __CPROVER_assert(0, "VACUITY_CANARY space_text: punctuator pair allowed to touch"); }
+   if (g_av == 0 && column > prev_column) { __CPROVER_assert(0, "VACUITY_CANARY space_text: ignore keeps a gap"); }
+}
+#endif
